@@ -94,7 +94,8 @@ func v19Suffix(subs int, cancelled bool, failedSends int) string {
 // case the client context is cancelled afterwards as well (gRPC cancels the
 // stream context when the transport is gone).
 //
-// params: subs (1..3), entries (0..3), ticks (sample rounds driven).
+// params: subs (1..3), entries (0..3), ticks (sample rounds driven),
+// ending (-1 either, 0 cancel only, 1 send failure only).
 func VerifSubscribe() {
 	subs := verifrt.Param("subs", 2)
 	entries := verifrt.Param("entries", 1)
@@ -109,7 +110,11 @@ func VerifSubscribe() {
 
 	// how the stream ends
 	cancelAfter := -1 // -1: never by itself; 0: before the call; k: after k-1 sample rounds
-	if verifrt.Choice("ending", 2) == 0 {
+	ending := verifrt.Param("ending", -1) // -1: either; 0: client cancels; 1: Send starts failing
+	if ending < 0 {
+		ending = verifrt.Choice("ending", 2)
+	}
+	if ending == 0 {
 		cancelAfter = verifrt.Choice("cancel-after", ticks+2)
 	} else {
 		total := subs*entries + 1 + ticks*subs*entries
@@ -174,8 +179,17 @@ func VerifSubscribeInterval() {
 	ctx, cancel := context.WithCancel(context.Background())
 	defer cancel()
 	st := &v19Stream{ctx: ctx}
-	iv := verifrt.Uint64("interval")
-	verifrt.Assume(iv >= uint64(time.Second))
+	var iv uint64
+	if verifrt.Param("symbolic", 0) == 1 {
+		// arbitrary interval; the engine cannot yet create a ticker with a
+		// symbolic period ("cannot convert interp.sym to int64")
+		iv = verifrt.Uint64("interval")
+		verifrt.Assume(iv >= uint64(time.Second))
+	} else {
+		// representatives of the uint64 range, around the int64 boundary of time.Duration
+		reps := []uint64{uint64(time.Second), uint64(time.Hour), 1<<63 - 1, 1 << 63, ^uint64(0)}
+		iv = reps[verifrt.Choice("interval", len(reps))]
+	}
 	req := v19Request(1, iv)
 	returned := false
 	go func() {
